@@ -173,7 +173,9 @@ impl Prop for Repair {
             }
             ops.push(WOp::Finalize);
         }
+        let mut crowd_of_files = false;
         if !big && rng.chance(1, 20) {
+            crowd_of_files = true;
             // many files, a few of them open across dozens of others
             let n = *rng.pick(&[65usize, 70, 129, 200]);
             let ll = rng.range(1, 3) as usize;
@@ -191,12 +193,19 @@ impl Prop for Repair {
             ops.insert(0, WOp::Add { name: Name::lit("lk"), data: Data::Look { n, first: (c.chunk - 36 % c.chunk) % c.chunk, period, seed: rng.u64() }, src: Src::exact() });
         }
         let mut case = Case::new(self.id, cfg, ops);
+        if crowd_of_files {
+            // hundreds of blocks: a repair costs milliseconds, so fewer cuts (still every region class)
+            case.params.insert("max_anchors".into(), 10);
+            case.params.insert("samples".into(), 25);
+            case.params.insert("window".into(), 5);
+        }
         if crowded {
             // every repair walks the key list: fewer cuts (header end, first anchors, the end, a sample)
+            let heavy = case.cfg.recipients >= 300;
             case.params.insert("full_sweep_limit".into(), 0);
-            case.params.insert("max_anchors".into(), 8);
-            case.params.insert("samples".into(), 12);
-            case.params.insert("window".into(), 6);
+            case.params.insert("max_anchors".into(), if heavy { 3 } else { 8 });
+            case.params.insert("samples".into(), if heavy { 4 } else { 12 });
+            case.params.insert("window".into(), if heavy { 2 } else { 6 });
         }
         if big {
             case.params.insert("max_anchors".into(), 12);
